@@ -64,6 +64,13 @@ def family(prop, tier):
         add("2 scoped cloners", [["read", "drop"], ["bclone", "drop"], ["bclone", "read", "drop"]], {1: (0, -1), 2: (0, -1)}, {1: (0, 1), 2: (0, 1)})
         for a, b, c in [(1, 1, 1), (0, 1, 2), (1, 1, 2), (0, 0, 1), (1, 2, 3)]:
             add(f"3t:{a}{b}{c}", [progs[a], progs[b], progs[c]])
+        # "convert" programs: a handle is released through the uniqueness-gated unwrapping paths, which free
+        # the memory without going through drop
+        conv = [["read", "try_unwrap"], ["read", "unwrap_or_clone"], ["try_unique_drop"]]
+        for x in conv:
+            for y in (RD, ["clone", "read", "drop", "drop"], x):
+                add("conv", [x, y])
+        add("conv3", [conv[0], RD, RD])
         if tier == "thorough":
             progs += [["read", "read", "drop"], ["count", "read", "drop"], ["clone", "clone", "drop", "read", "drop", "drop"]]
             for a, b in itertools.combinations_with_replacement(range(len(progs)), 2):
